@@ -43,7 +43,7 @@ func init() {
 			Expect: []string{"C16.R10@(*internal/packages/internal/packagevalidation.ObjectDuplicateValidator).ValidateObjects#duplicate-key"}},
 		Mutant{Prop: "C16", Name: "benign-duplicate-key-spelled-out", File: objvalid, Benign: true,
 			Old: dupKey,
-			New: "\t\t\tkey := gvk.Group + \"/\" + gvk.Kind + \" \" + object.GetNamespace() + \"/\" + object.GetName()\n\t\t\t_, _ = groupKind, objectKey\n"},
+			New: "\t\t\tkey := fmt.Sprint(gvk.Group, \"/\", gvk.Kind, \" \", object.GetNamespace(), \"/\", object.GetName())\n\t\t\t_, _ = groupKind, objectKey\n"},
 		// ---- C14.R9
 		Mutant{Prop: "C14", Name: "r9-chunking-retried-in-loop", File: deprec,
 			Old:    chunkCall,
